@@ -143,7 +143,13 @@ def emitter_cases(rng, tier):
     for i in range(n):
         cmd = i % 3
         descs = []
-        for _ in range(rng.choice((0, 0, 1, 2, 3))):
+        # i % 16 == 5: a long section (section_length beyond 1023, where a 10-bit reading of the length field ends; seeded
+        # C13-u2), built from many descriptors with long UPIDs
+        for _ in range(rng.choice((0, 0, 1, 2, 3)) if i % 16 != 5 else rng.randrange(8, 18)):   # at most 17 x 225 bytes: below the 4093-byte limit of a section
+            if i % 16 == 5:
+                descs.append("[ %d %d %d %d %s %d ]" % (rng.randrange(1 << 32), rng.choice((0x10, 0x30, 0x34, 0x36, 0x40)), rng.randrange(2),
+                                                      rng.randrange(1 << 33), hx(bytes(rng.randrange(256) for _ in range(rng.randrange(60, 200)))), 9))
+                continue
             descs.append("[ %d %d %d %d %s %d ]" % (rng.randrange(1 << 32), rng.choice((0x10, 0x11, 0x30, 0x31, 0x34, 0x35, 0x36, 0x40, 0x50)),
                                                   rng.randrange(2), rng.randrange(1 << 33),
                                                   hx(bytes(rng.randrange(256) for _ in range(rng.choice((0, 0, 8, 12))))),
@@ -154,6 +160,18 @@ def emitter_cases(rng, tier):
     return out
 
 
+K3_PREFIX = "UpdateData(): the section_length field holds only the low 10 bits of the length of a section longer than 1023 bytes"
+
+
+def known_match(entry, case, real, model):
+    if entry.get("signature") == "scte-section-length-10-bits":
+        try:
+            return case.kind.endswith("emit-splice-info-section") and residue_check(case, real).startswith(K3_PREFIX)
+        except Exception:
+            return False
+    return case.line in entry.get("lines", [entry.get("line")])
+
+
 def residue_check(c, real):
     """the receivers' check (register zero over the whole section incl. CRC_32) on what the real emitter returned"""
     v = vlib.parse_val(real)
@@ -162,6 +180,14 @@ def residue_check(c, real):
             return "UpdateData() returned %s" % real[:200]
         sl = ((v[1] & 0x0f) << 8) | v[2]
         if 3 + sl != len(v):
+            if len(v) - 3 >= 1024 and sl == (len(v) - 3) & 0x3FF:
+                # known finding K3 (known_findings.json): psi.TableHeader.Data() writes 10 bits of section_length, so a section
+                # of 1027 bytes or more is emitted with a truncated length field.  The CRC_32 must still close the bytes
+                # returned; only the length field is the recorded finding.
+                if table_crc(v) != 0:
+                    return "encoded splice_info_section (long section) fails the CRC check over the bytes returned: residue %08x, CRC field %s, required %08x" % (
+                        table_crc(v), v[-4:].hex(), table_crc(v[:-4]))
+                return K3_PREFIX + ": %d bytes returned, length field says %d" % (len(v), sl)
             return "UpdateData(): section_length %d does not match the %d bytes returned" % (sl, len(v))
         if table_crc(v) != 0:
             return "encoded splice_info_section fails the CRC check: residue %08x, CRC field %s, required %08x" % (
